@@ -912,6 +912,13 @@ m("c20-chain-id-not-set-at-construction", "C20", "app/app.go",
 m("c19-symbol-stored-raw", "C19", "x/erc20/keeper/proposals.go",
   "strings.ToValidUTF8(erc20Data.Symbol, \"\\uFFFD\")", "strings.TrimSpace(erc20Data.Symbol)",
   "Metadata.Symbol-1-sanitised", "the contract's symbol is stored as returned")
+m("c03-params-rewrite-slip", "C03", "app/upgrades/v1.8.0/upgrades.go",
+  "\tparams := ek.GetParams(ctx)\n\tparams.ActivePrecompiles = evmtypes.AvailableEVMExtensions\n",
+  "\tstored := ek.GetParams(ctx)\n\tparams := evmtypes.Params{EvmDenom: stored.EvmDenom, EnableCreate: stored.EnableCreate, EnableCall: stored.EnableCall, AllowUnprotectedTxs: stored.EnableCall, ExtraEIPs: stored.ExtraEIPs, ChainConfig: stored.ChainConfig, EVMChannels: stored.EVMChannels}\n\tparams.ActivePrecompiles = evmtypes.AvailableEVMExtensions\n",
+  "Params.AllowUnprotectedTxs-1-from-its-namesake", "positive control of the expected-zero rule: a rebuilt parameter set with one slipped field")
+m("c03-router-genesis-fast-path", "C03", "app/ante/ante.go",
+  "\t\tvar anteHandler sdk.AnteHandler\n", "\t\tif ctx.BlockHeight() == 0 && !ctx.IsCheckTx() && !sim {\n\t\t\treturn ctx, nil\n\t\t}\n\t\tvar anteHandler sdk.AnteHandler\n",
+  "success-only-through-a-route", "the router accepts genesis transactions itself")
 for prop in ("C16", "C07"):
     m("c%s-gas-meter-without-precharge" % prop[1:], prop, "precompiles/common/precompile.go",
       "sdk.NewGasMeter(initialGas + contract.Gas)", "sdk.NewGasMeter(contract.Gas)",
